@@ -13,6 +13,14 @@
     watchdog dispatcher thread is running), `pending` (file-system events not yet dispatched, FIFO),
     `watch` (one entry per `TokenFile.watch()` thread waiting for the end of a foreign job).
 
+    One token object per (process, directory): `CounterToken.create` (the per-process registry behind
+    `connector.createtoken` / `xp.token`) hands the registered object out again whatever total is asked
+    the second time (the total and `token.info` are left as they are, a warning is logged).  Asking
+    again is the step `recreate`, which changes nothing; the check compares the identity of the object
+    returned by the real `create`, its total and the number of live token objects of the process with
+    this (a second object in the same process would not be "another process": `fcntl` locks do not
+    exclude it, its watcher threads get the job lock its own scheduler is holding).
+
     `TokenFile.delete()` is modelled as an atomic delete-if-exists.  The real method tests `is_file()` and
     then calls `unlink()`; a watcher of another process deleting in between is linearised as
     `reclaim` followed by a `release` that finds nothing (the check exercises that window on the real
@@ -72,6 +80,7 @@ inductive Ev where
   | jobGone (f : Name)                   -- the job's process ended / its start was abandoned
   | drop (p : Proc)                      -- the scheduler process dies
   | restart (p : Proc)                   -- a new process builds `CounterToken(...)`
+  | recreate (p : Proc)                  -- `p` asks again for the same named token (any total): `CounterToken.create`
   deriving DecidableEq, Repr, Inhabited
 
 /-- what the caller of a step sees: `ok` = enough tokens / taken token found / no exception in the
@@ -172,6 +181,7 @@ def apply (cfg : Cfg) (s : St) : Ev → St × Out
   | .drop p =>
     ({ s with procs := upd s.procs p { (s.procs p) with dropped := true, alive := false, pending := [], watch := [] } }, {})
   | .restart p => ({ s with procs := upd s.procs p (recount cfg s.disk fresh) }, {})
+  | .recreate _ => (s, {})
 
 def ipcProc (s : St) : Option Proc := s.ipc.map Prod.fst
 def ipcName (s : St) : Option Name := s.ipc.map Prod.snd
@@ -186,6 +196,7 @@ def enabled (s : St) : Ev → Bool
   | .jobGone f => s.active.contains f && ipcName s != some f
   | .drop p => !(s.procs p).dropped && ipcProc s != some p
   | .restart p => (s.procs p).dropped && s.ipc.isNone
+  | .recreate p => !(s.procs p).dropped
 
 /-- every process starts on an empty directory with a fresh recount. -/
 def init (cfg : Cfg) : St := { procs := fun _ => { avail := cfg.total } }
